@@ -185,6 +185,19 @@ def pred_lang(t, var):
             t.comparators[0].value is None:
         # no byte string is None
         return Lang.empty() if isinstance(t.ops[0], ast.Is) else ALL
+    if isinstance(t, ast.Compare) and len(t.ops) == 1 and \
+            isinstance(t.ops[0], (ast.In, ast.NotIn)) and \
+            isinstance(t.left, ast.Subscript) and \
+            _is_var(t.left.value, var) and \
+            isinstance(t.comparators[0], (ast.Tuple, ast.List, ast.Set)) \
+            and t.comparators[0].elts:
+        # var[a:b] in (x, y)  ==  var[a:b] == x or var[a:b] == y
+        alts = Lang.empty()
+        for e in t.comparators[0].elts:
+            alts = alts.union(pred_lang(ast.Compare(
+                left=t.left, ops=[ast.Eq()], comparators=[e]), var))
+        return alts.complement() if isinstance(t.ops[0], ast.NotIn) \
+            else alts
     if isinstance(t, ast.Compare) and len(t.ops) == 1:
         op, l, r = t.ops[0], t.left, t.comparators[0]
         neg = isinstance(op, (ast.NotEq, ast.NotIn))
